@@ -6,6 +6,47 @@ use rand::{Rng, RngCore};
 use serde_json::{json, Value};
 use std::path::PathBuf;
 
+thread_local! {
+    /// an honest (message, signature, public key) of the variant, used to call verify with every decoded pk / signature
+    static HONEST: std::cell::RefCell<std::collections::HashMap<usize, (Vec<u8>, Vec<u8>, Vec<u8>)>> = std::cell::RefCell::new(Default::default());
+}
+
+fn honest_triple<V: Fv>() -> (Vec<u8>, Vec<u8>, Vec<u8>) {
+    HONEST.with(|h| {
+        h.borrow_mut()
+            .entry(V::N)
+            .or_insert_with(|| {
+                let (sk, pk) = V::keygen([9u8; 32]);
+                let msg = b"totality of verify".to_vec();
+                let sig = V::sig_to_bytes(&V::sign(&msg, &sk));
+                (msg, sig, V::pk_to_bytes(&pk))
+            })
+            .clone()
+    })
+}
+
+/// C03: for every decodable public key / signature, verify returns a boolean (recorded as "true" / "false" / "panic" / "na").
+fn verify_with_decoded<V: Fv>(ty: &str, b: &[u8]) -> &'static str {
+    let (msg, hsig, hpk) = honest_triple::<V>();
+    let r = match ty {
+        "pk" => guarded(|| match (V::pk_from_bytes(b), V::sig_from_bytes(&hsig)) {
+            (Ok(p), Ok(s)) => Some(V::verify(&msg, &s, &p)),
+            _ => None,
+        }),
+        "sig" => guarded(|| match (V::pk_from_bytes(&hpk), V::sig_from_bytes(b)) {
+            (Ok(p), Ok(s)) => Some(V::verify(&msg, &s, &p)),
+            _ => None,
+        }),
+        _ => return "na",
+    };
+    match r {
+        Outcome::Ret(Some(true)) => "true",
+        Outcome::Ret(Some(false)) => "false",
+        Outcome::Ret(None) => "na",
+        Outcome::Panic(_) => "panic",
+    }
+}
+
 pub fn decode_event<V: Fv>(ty: &str, b: &[u8], tag: &str) -> Value {
     let (res, reenc, detail) = match ty {
         "pk" => match guarded(|| V::pk_from_bytes(b).map(|k| V::pk_to_bytes(&k))) {
@@ -24,7 +65,8 @@ pub fn decode_event<V: Fv>(ty: &str, b: &[u8], tag: &str) -> Value {
             Outcome::Panic(m) => ("panic", vec![], m),
         },
     };
-    json!({"ev":"decode","type":ty,"n":V::N,"b":bytes_json(b),"res":res,"reenc":bytes_json(&reenc),"tag":tag,"detail":detail})
+    let vres = if res == "ok" { verify_with_decoded::<V>(ty, b) } else { "na" };
+    json!({"ev":"decode","type":ty,"n":V::N,"b":bytes_json(b),"res":res,"reenc":bytes_json(&reenc),"verify":vres,"tag":tag,"detail":detail})
 }
 
 fn set_bits(b: &mut [u8], start: usize, w: usize, v: u32) {
